@@ -42,6 +42,10 @@ class Room:
         self.cfs = []
         for i in range(ncf):
             p = np.array([rng.uniform(-1, 1), rng.uniform(-1, 1), rng.uniform(0.0, 1.0)])
+            if spec.get('box'):
+                # all poses inside a small box (a Crazyflie hovering / carried around one spot) instead of the whole flight volume
+                c0 = np.array([0.6 * math.cos(spec['seed'] % 7), 0.6 * math.sin(spec['seed'] % 7), 0.5])
+                p = c0 + (p - np.array([0.0, 0.0, 0.5])) * np.array([spec['box'] / 2.0, spec['box'] / 2.0, spec['box']])
             yaw = rng.uniform(-math.pi, math.pi)
             if spec.get('yaw_mode') == 'quarter':
                 # level poses that differ from the first one by exact quarter turns (a Crazyflie put down along the walls)
